@@ -233,6 +233,19 @@ fn main() {
                 }
             }
         }
+        // ground truth for "which arrival": the puppet's own counter, read from its memory
+        if let Some(addr) = st["peek"].as_u64() {
+            let peek = |tid: Option<i64>| -> Value {
+                tid.and_then(|t| vharness::probe::read_mem(t as i32, addr, 8))
+                    .map(|b| json!(u64::from_le_bytes(b.try_into().unwrap())))
+                    .unwrap_or(Value::Null)
+            };
+            if !stop.is_null() {
+                stop["peek"] = peek(stopped.as_ref().and_then(|b| b["threadId"].as_i64()));
+            } else if !probe["top"].is_null() {
+                probe["top"]["peek"] = peek(barrier["body"]["threads"][0]["id"].as_i64());
+            }
+        }
         // optimisation only (the verdict is computed by the caller): once the program is not where the
         // script assumes, the remaining requests are not sent
         let mut diverged = false;
